@@ -51,6 +51,7 @@ fn main() {
         "C04" => run_property(&props::c04::C04, &args),
         "C05" => run_property(&props::c05::C05, &args),
         "C07" => run_property(&props::c07::C07, &args),
+        "C08" => run_property(&props::c08::C08, &args),
         x => {
             eprintln!("unknown property {}", x);
             2
